@@ -8,17 +8,24 @@ PROP = {'gen': [],
  'props_module': 'Props.C15',
  'corr_check': 'SNT.Corr.C15Corr.c15_check (model Automata/{NFA,Build,Compile}.v vs surf_n_term::automata::{NFA, DFA}: NFA graph from '
                'the Debug output, DFA enumerated through start/transition/info, acceptance/terminal/tags after every short string)',
- 'level_text': 'Coq theorems over an executable model of the NFA combinators and of NFA::compile: for every expression and every byte '
-               'string the built NFA accepts the string iff the expression matches it; the compiled DFA steps without panic, '
-               'reports a dead transition exactly when no NFA state is reachable, is accepting iff the expression matches, reports '
-               'exactly the tags of the matching alternatives and is terminal only if no byte extends. Model tied to the code by a '
-               'differential run over generated expressions.',
- 'level_note': 'Trusted: Coq kernel + vm_compute; hand-written model validated by the correspondence run. No axioms.',
+ 'level_text': 'Coq theorems over an executable model of the NFA combinators, NFA::compile and DFA stepping (src/automata.rs): for '
+               'every expression (arbitrary nesting) and every byte string, the built NFA has an accepting path iff the expression '
+               'matches (C15_build); for every NFA whose edge lists are maps, compile terminates without panic and the DFA, stepped '
+               'through any byte string without panic, reports a dead transition exactly when no NFA state is reachable, is accepting '
+               'iff the stop state is reachable, carries exactly the tags of the reachable tagged states and is terminal only if no '
+               'byte has a transition (C15_compile, C15_compile_total); hence DFA::matches = expression matches (C15_main, '
+               'C15_main_unconditional), terminal/dead only if no extension matches (C15_terminal_dead), tags of a tagged choice = tags '
+               'of the matching alternatives (C15_tags). The model is tied to the code by a differential run: NFA graph (Debug output), '
+               'DFA (canonical enumeration), acceptance/terminal/tags after every short string and guided long strings, with a '
+               'verified derivative matcher as property predicate.',
+ 'level_note': 'Trusted: Coq kernel + vm_compute; hand-written model (BTreeMap<NFAStateId,_> as a list indexed by id: ids are dense by '
+               'construction, compared with the ids printed by the code); denotation of expressions is the specification; symbols are '
+               'bytes. Tags characterised at expression level for tagged choices only. No axioms (Print Assumptions: closed).',
  'technique': 'Coq proof (structural induction over expressions with path decomposition lemmas; invariant of the subset construction) '
               '+ model/implementation correspondence',
  'design_ref': 'DESIGN.md 5, 6.15',
- 'n_quick': 300,
- 'n_thorough': 6000,
+ 'n_quick': 900,
+ 'n_thorough': 12000,
  'shard': 60,
  'level': 'proof',
  'trusted_base': [KERNEL,
